@@ -52,7 +52,7 @@ LAYOUTS = {
               "guards": {"exclusive": ["MutexGuard"], "shared": []}, "spin": {"function": r"::spin$", "literal": "100_i32"}},
     "rwlock": {"obj": "rwlock", "layout": {(0, 0): "state", (0, 1): "wnotify", (1,): "data"}, "atomic": ["state", "wnotify"],
                "data": ["data"], "guards": {"exclusive": ["RwLockWriteGuard"], "shared": ["RwLockReadGuard"]},
-               "spin": {"function": r"::spin_until", "literal": "100_i32"}},
+               "spin": {"function": r"read_contended|write_contended|spin_until", "literal": "100_i32"}},
 }
 MASK = (1 << 30) - 1
 
@@ -84,7 +84,7 @@ def build(kind, progs, mirs):
     L = LAYOUTS[kind]
     ths = []
     for i, e in enumerate(progs):
-        cfg = {"layout": {L["obj"]: L["layout"]}, "spin_rewrite": L["spin"]}
+        cfg = {"layout": {L["obj"]: L["layout"]}, "spin_rewrite": dict(L["spin"], max_budget=int(os.environ.get("VERIF_SPIN_BUDGET", "0")))}
         th = interp.Thread(i, [P, M], e, [interp.Ptr(L["obj"], ())], cfg)
         th.build()
         ths.append(th)
@@ -104,7 +104,8 @@ def run_query(task):
         ths = build(kind, progs, mirs)
         L = LAYOUTS[kind]
         try_only = {i: True for i, p in enumerate(progs) if re.search(r"_try_(w|read|write)$", p) or p in ("m_try_w",)}
-        sysm = bmc.System(ths, L["atomic"], L["data"], K, L["guards"], try_only=try_only, held_pred=held_pred_for(kind, progs))
+        sysm = bmc.System(ths, L["atomic"], L["data"], K, L["guards"], try_only=try_only, held_pred=held_pred_for(kind, progs),
+                          track_hb=(query in ("race", "all")))
         sym = []
         seen = {}
         for i, p in enumerate(progs):
